@@ -28,3 +28,15 @@ C("C20",
   "Trusted: schoolbook reference routines that use the library's field operations (monitored by C07/C08).",
   "identity-checking monitors over generated inputs (serial + concurrent builds)",
   "DESIGN.md §5 C20")
+
+C("C16",
+  "Step-set semantics decided by complete enumeration at run time: for trace lengths 8..256 (thorough: ..1024) and three base fields, every exemption count (0 and n/2+2 must be refused), every well-formed single/periodic/sequence assertion and every ordered pair of assertions on a column; divisor zero sets are evaluated on every point of the trace domain and cross-checked against the explicit product at out-of-domain points; the system-built boundary constraint must reproduce each asserted value and reject value+1; overlaps_with must equal set intersection; ill-formed arguments must be refused.",
+  "Trusted: the step-set enumeration in the monitor and the library's field operations (C07). Zero set read as numerator=0 and exemptions!=0.",
+  "exhaustive run-time enumeration with a set-semantics oracle",
+  "DESIGN.md §5 C16")
+
+C("C18",
+  "Conjectured security estimate compared with an integer re-implementation of the documented formula on the complete grid (255 query counts x 7 blowups x 33 grinding factors x 3 extension degrees x 30 trace lengths x 3 field sizes x 6 collision-resistance values, ~1.4e8 evaluations per run), with monotonicity to each adjacent grid point; proven estimate sampled (6e4 quick / 3e6 thorough parameter sets) for the four monotonicity directions; acceptance policy checked at thresholds level-1/level/level+1 and for option sets with and without the proof's options, for all six hashers.",
+  "Trusted: the integer formula in the monitor (taken from the documentation). Contexts are decoded from hand-built bytes; the policy is observed at AcceptableOptions::validate (what verify() calls first).",
+  "exhaustive grid comparison with reference formula + pairwise monotonicity monitor + policy-semantics oracle",
+  "DESIGN.md §5 C18")
